@@ -1,25 +1,38 @@
 (* C12 — Authorization is deterministic and independent of presentation order.
    Statements only; proofs in Proofs/OrderProofs.v.
 
-   Fragment: set-free facts and rule heads (Go's Set.Equal is not an equivalence
-   on lists with repeats), error-free queries ([queries_ef]: no candidate binding
-   makes an expression fail — outside it order dependence is real, see
-   [C12_out_of_fragment]), runs within limits ([runs_ok]).  The policy LIST order
-   is significant and is never permuted ([C12_policy_order_matters]). *)
+   Fragment: error-free queries ([queries_ef]: no candidate binding makes an
+   expression fail — outside it order dependence is real, see
+   [C12_out_of_fragment]), runs within limits ([runs_ok]).  No hypothesis on set
+   constants or set operators: every step of the evaluation respects
+   Predicate.Equal (C05).  Worlds are compared up to Equal ([PermutationA
+   fact_eqv]): a world keeps the first representative of each class of Equal
+   facts.  The policy LIST order is significant and is never permuted
+   ([C12_policy_order_matters]).  Duplicates and repetition need no hypothesis
+   at all. *)
 From BV Require Import Base Term Expr Datalog Authz DatalogProofs AuthzProofs OrderProofs.
-From Coq Require Import Permutation.
+From Coq Require Import Permutation SetoidList SetoidPermutation.
 
 (* facts, rules, checks of every block and of the authorizer permuted, queries
    inside checks and policies permuted: same verdict class (failed checks are
    renumbered by the permutation, so the class carries their number) and the
-   same derived fact set *)
+   same derived fact set, up to Equal *)
 Theorem C12_permutation : forall rx (tok tok' : list block) (a a' : astate),
   Forall2 block_perm tok tok' -> astate_perm a a' ->
-  setfree_facts (a_facts a) -> setfree_rules (a_rules a) -> Forall block_setfree tok ->
+  NoDupA fact_eqv (a_facts a) -> runs_ok rx tok a -> runs_ok rx tok' a' -> queries_ef rx tok a ->
+  verdict_class (snd (authorize rx tok a)) = verdict_class (snd (authorize rx tok' a')) /\
+  PermutationA fact_eqv (a_facts (fst (authorize rx tok a))) (a_facts (fst (authorize rx tok' a'))).
+Proof. exact OrderProofs.C12_permutation. Qed.
+
+(* the set-free case: Predicate.Equal is equality there, plain permutation *)
+Theorem C12_permutation_setfree : forall rx (tok tok' : list block) (a a' : astate),
+  Forall2 block_perm tok tok' -> astate_perm a a' ->
+  setfree_facts (a_facts a) -> setfree_rules (a_rules a) ->
+  Forall (fun b => setfree_facts (b_facts b) /\ setfree_rules (b_rules b)) tok ->
   NoDup (a_facts a) -> runs_ok rx tok a -> runs_ok rx tok' a' -> queries_ef rx tok a ->
   verdict_class (snd (authorize rx tok a)) = verdict_class (snd (authorize rx tok' a')) /\
   Permutation (a_facts (fst (authorize rx tok a))) (a_facts (fst (authorize rx tok' a'))).
-Proof. exact OrderProofs.C12_permutation. Qed.
+Proof. exact OrderProofs.C12_permutation_setfree. Qed.
 
 (* consistent (injective) renaming of variables, rule by rule: identical verdict and world *)
 Theorem C12_alpha : forall rx (tok tok' : list block) (a a' : astate),
@@ -36,9 +49,14 @@ Theorem C12_duplicate_in_block : forall (l1 l2 l3 : list pred) (f : pred) (fs : 
   fold_left insert_fact (l1 ++ f :: l2 ++ f :: l3) fs = fold_left insert_fact (l1 ++ f :: l2 ++ l3) fs.
 Proof. exact fold_insert_dup. Qed.
 
+(* so is adding a fact that is merely Equal to an earlier one (p([2,1]) after p([1,2])) *)
+Theorem C12_duplicate_in_block_equal : forall (l1 l2 l3 : list pred) (f f' : pred) (fs : list pred),
+  fact_eqv f f' ->
+  fold_left insert_fact (l1 ++ f :: l2 ++ f' :: l3) fs = fold_left insert_fact (l1 ++ f :: l2 ++ l3) fs.
+Proof. exact fold_insert_dup_eqv. Qed.
+
 (* calling Authorize again on the same authorizer: same state, same verdict, any number of times *)
 Theorem C12_repeat : forall rx (tok : list block) (a : astate) (n : nat),
-  setfree_facts (a_facts a) -> setfree_rules (a_rules a) -> block_setfree (hd empty_block tok) ->
   snd (auth_world rx (hd empty_block tok) a) = None ->
   authorize rx tok (authorize_times rx n tok a) = authorize rx tok a.
 Proof. exact C12_repeat_n. Qed.
@@ -46,11 +64,20 @@ Proof. exact C12_repeat_n. Qed.
 (* boundaries of the fragment, made explicit *)
 Example C12_policy_order_matters := policy_order_matters.
 Example C12_out_of_fragment := C12_out_of_fragment_example.
+(* the former set counter-example (repeated element + intersection), repaired *)
+Example C12_sets_setops_repaired := C12_sets_setops_repaired_example.
 Example C12_repeat_after_limit := C12_repeat_after_limit_example.
 Example C12_hypotheses_satisfiable := o_hyps.
+(* with set constants that have repeated elements and rules with intersection
+   and union, two presentations *)
+Example C12_hypotheses_satisfiable_sets := s_hyps.
+Example C12_permutation_sets := s_C12_permutation.
+Example C12_permutation_sets_computed := s_verdicts.
 
 Print Assumptions C12_permutation.
+Print Assumptions C12_permutation_setfree.
 Print Assumptions C12_alpha.
 Print Assumptions C12_duplicate.
 Print Assumptions C12_duplicate_in_block.
+Print Assumptions C12_duplicate_in_block_equal.
 Print Assumptions C12_repeat.
